@@ -2,4 +2,4 @@
 From TT Require Export Model.Doc Gen.StyleTables Model.Isd Model.Lcd Spec.IsdSpec Spec.LcdSpec Model.LcdCases.
 From TT Require Export Proofs.C16.Basics Proofs.C16.Prov Proofs.C16.Static Proofs.C16.Refs Proofs.C16.Idem Proofs.C16.Tree
   Proofs.C16.Chains Proofs.C16.Counting Proofs.C16.Alias Proofs.C16.Timeline1 Proofs.C16.Timeline2 Proofs.C16.Timeline3
-  Proofs.C16.Merged Proofs.C16.Total Proofs.C16.Redirect.
+  Proofs.C16.Merged Proofs.C16.Total Proofs.C16.Redirect Proofs.C16.Computed Proofs.C16.Kept Proofs.C16.Align.
